@@ -453,3 +453,73 @@ func isForeignCall(w *World, c *ssa.Call) bool {
 	}
 	return true
 }
+
+// DONE-AFTER-RECOVER: in a goroutine that both signals a WaitGroup and turns its own panic into an error slot, the
+// signal comes last: `defer wg.Done()` is registered BEFORE the recover handler (deferred calls run last-in-first-out), or
+// Done is called inside the handler after the error has been stored. Otherwise the waiter can read the slot between
+// Done and the store — a panicking task looks successful.
+func ruleDoneAfterRecover(w *World, r *Report, rule string, pkgs ...string) int {
+	n := 0
+	hasRecover := func(f *ssa.Function) bool {
+		return funcContains(f, func(i ssa.Instruction) bool { return isBuiltin(i, "recover") })
+	}
+	for _, fn := range w.RepoFuncs(pkgs...) {
+		instrs(fn, func(in ssa.Instruction) {
+			g, ok := in.(*ssa.Go)
+			if !ok {
+				return
+			}
+			lit := staticCallee(g)
+			if lit == nil || len(lit.Blocks) == 0 {
+				return
+			}
+			var dDone, dRec *ssa.Defer
+			var recLit *ssa.Function
+			instrs(lit, func(x ssa.Instruction) {
+				d, ok := x.(*ssa.Defer)
+				if !ok {
+					return
+				}
+				if calleeFullName(d) == "(*sync.WaitGroup).Done" {
+					dDone = d
+					return
+				}
+				if f := staticCallee(d); f != nil && hasRecover(f) {
+					dRec, recLit = d, f
+				}
+			})
+			if dRec == nil {
+				return
+			}
+			doneInHandler := funcContains(recLit, func(i ssa.Instruction) bool { return calleeFullName(i) == "(*sync.WaitGroup).Done" })
+			if dDone == nil && !doneInHandler {
+				return
+			}
+			n++
+			construct := "goroutine " + w.fname(lit) + ": WaitGroup signalled after the panic has been recorded"
+			switch {
+			case dDone != nil:
+				r.Check(instrDominates(dDone, dRec), rule, construct, lit.Pos(), "defer wg.Done() is registered before the recover handler (it runs after it)", "`defer wg.Done()` is registered after the recover handler, so it runs BEFORE it: the waiter is released before the panic is stored in the task's error — it can see a nil error for a panicking task (the panic is swallowed: the run reports success with the other tasks' results) and the late store races with the reader")
+			default:
+				// Done inside the handler: it must come after the recover() call's branch (all stores precede it)
+				var rec, done ssa.Instruction
+				instrs(recLit, func(i ssa.Instruction) {
+					if isBuiltin(i, "recover") {
+						rec = i
+					}
+					if calleeFullName(i) == "(*sync.WaitGroup).Done" {
+						done = i
+					}
+				})
+				okOrder := rec != nil && done != nil && instrDominates(rec, done)
+				if okOrder {
+					// no store after Done
+					late, _ := pathQuery{fn: recLit, from: done, goal: func(i ssa.Instruction) bool { _, ok := i.(*ssa.Store); return ok }}.exists()
+					okOrder = !late
+				}
+				r.Check(okOrder, rule, construct, lit.Pos(), "Done is the last thing the recover handler does", "the recover handler signals the WaitGroup before it has stored the panic: the waiter can read a nil error for a panicking task")
+			}
+		})
+	}
+	return n
+}
